@@ -69,6 +69,10 @@ def definitions(tier: str, seed: int, want: dict[str, int]) -> list[dict]:
         for i, ast in enumerate(fam):
             defs.append({"name": f"bunched{i}", "kind": "bunched", "ast": ast,
                          "tags": sorted(gen.tags_of(ast) | {"beyond-F", "bunched"})})
+    if want.get("bunched", 0):
+        for i, ast in enumerate(gen.deep_nest_family()):
+            defs.append({"name": f"deep{i}", "kind": "bunched", "ast": ast,
+                         "tags": sorted(gen.tags_of(ast) | {"beyond-F", "bunched", "deep-nest"})})
     if want.get("loop-families", 0):
         for i, ast in enumerate(gen.loop_start_block_family()):
             defs.append({"name": f"lsb{i}", "kind": "loop-families", "ast": ast,
@@ -80,6 +84,10 @@ def definitions(tier: str, seed: int, want: dict[str, int]) -> list[dict]:
             t = gen.tags_of(ast)
             defs.append({"name": f"l2bx{i}", "kind": "loop-families", "ast": ast,
                          "tags": sorted(t | {gen.stratum_of(t), "two-break-xors"})})
+        for i, ast in enumerate(gen.plain_break_family()):
+            t = gen.tags_of(ast)
+            defs.append({"name": f"lpb{i}", "kind": "loop-families", "ast": ast,
+                         "tags": sorted(t | {gen.stratum_of(t), "plain-breaks"})})
     if want.get("start-block", 0):
         for i, ast in enumerate(gen.break_xor_start_block_family()):
             defs.append({"name": f"bxsb{i}", "kind": "start-block", "ast": ast,
